@@ -739,4 +739,4 @@ async def run_history(loop: vclock.VLoop, case: dict, after: Any = None) -> Worl
 
 
 def run(case: dict, after: Any = None, max_steps: int = 600_000) -> World:
-    return vclock.run(lambda loop: run_history(loop, case, after), max_steps=max_steps)
+    return vclock.run(lambda loop: run_history(loop, case, after), max_steps=max_steps, tz=case.get("tz"))
